@@ -434,7 +434,7 @@ func ParseSpecFile(path string, pkgPath string) (*SpecFile, error) {
 	var cl []ln
 	for _, l := range lines {
 		f := strings.Fields(l.s)
-		if len(f) > 0 && clauseKeywords[f[0]] || len(cl) == 0 {
+		if len(f) > 0 && (clauseKeywords[f[0]] || strings.HasPrefix(f[0], "splitentry") || strings.HasPrefix(f[0], "revealentry")) || len(cl) == 0 {
 			cl = append(cl, ln{strings.TrimSpace(l.s), l.num})
 		} else {
 			cl[len(cl)-1].s += " " + strings.TrimSpace(l.s)
